@@ -187,7 +187,7 @@ def jw_term(T, c):
     return '(JwC %s %s %s [%s] %s)' % (wrap, B(c['valid']), T.obytes(c['p']), frames, unw_res(T, c['got']))
 
 def ctx_term(T, c):
-    return '(CtxC %d%%N %d%%N %d%%N %d%%N)' % (c['in'], c['delivered'], c['wrapped'], c['unwrapped'])
+    return '(CtxC %d%%N %d%%N %d%%N %d%%N %d%%N %d%%N)' % (c['in'], c['delivered'], c['wrapped'], c['unwrapped'], c['copy'], c['orig_after'])
 def cc_term(T, c):
     return '(CcC %s %d %s)' % (cq_term(T, c['c']), c['kind_u'], B(c['nofb_u']))
 
@@ -200,6 +200,23 @@ def tg_term(T, c):
 
 def ji_term(T, c):
     return '(JiC (%s)%%Z %s %s %s)' % (c['z'], T.hx(c['enc']), T.hx(c['in']), ('(Some (%s)%%Z)' % c['dec']) if c['dec_ok'] else 'None')
+
+def sm_term(T, c):
+    k = c['kind']
+    if k == 'ids':
+        return '(SmIds [%s] [%s])' % (';'.join(T.msg(m) for m in c.get('ms') or []), ';'.join(T.hx(x) for x in c.get('ids') or []))
+    if k == 'add':
+        return '(SmAdd %s %s %s %s)' % (T.meta(c['l']), T.meta(c['new']), T.meta(c['got'])[6:-1], B(c['unchanged']))
+    if k == 'copy':
+        return '(SmCopy %s %s %s)' % (T.meta(c['l']), T.meta(c['got'])[6:-1], B(c['unchanged']))
+    return '(SmId %d %s)' % (['uuid', 'shortuuid', 'ulid'].index(k), T.hx(c['s']))
+def pw_val(T, kind, v):
+    if kind in (0, 1): return '(PwBytes %s)' % T.hx(v)
+    if kind == 2: return '(PwInt (%s)%%Z)' % v
+    return '(PwBool %s)' % v
+def pw_term(T, c):
+    return '(PwC %d %s %s %s %s %s)' % (c['kind'], pw_val(T, c['kind'], c['v']), ('(Some %s)' % T.hx(c['enc'])) if c['enc_ok'] else 'None',
+                                     T.hx(c['in']), B(c['must_fail']), ('(Some %s)' % pw_val(T, c['kind'], c['dec'])) if c['dec_ok'] else 'None')
 
 FAMILIES = {
     # key: (case type, term builder, [(result name, Gallina function, role)], chunk size, what)
@@ -227,6 +244,8 @@ FAMILIES = {
     'tg':  ('tg_case', tg_term, [('mis', 'tg_mismatches', 'm'), ('vio', 'tg_violations', 'v'), ('law', 'tg_law_failures', 'l')], 200,
             'CQRS marshaler Unmarshal into a reused / pre-filled target, and on payloads that are not the output of Marshal'),
     'ji':  ('ji_case', ji_term, [('mis', 'ji_mismatches', 'm')], 400, 'Gallina enc_int / dec_int against json.Marshal(int64) / json.Unmarshal(text, &int64)'),
+    'sm':  ('sm_case', sm_term, [('mis', 'sm_mismatches', 'm')], 400, 'Messages.IDs, LogFields.Add / Copy (result and independence from the inputs), NewUUID / NewShortUUID / NewULID formats'),
+    'pw':  ('pw_case', pw_term, [('mis', 'pw_mismatches', 'm')], 300, 'protobuf wire bytes of StringValue / BytesValue / Int64Value / BoolValue: Gallina encoder = proto.Marshal, Gallina decoder vs proto.Unmarshal'),
     'u8':  ('u8_case', u8_term, [('mis', 'u8_mismatches', 'm')], 2000, 'utf8_valid (Gallina) against utf8.Valid (Go): boundary sweep + mutated strings'),
 }
 
@@ -343,7 +362,7 @@ def run_once(ctx, res, seed, scale, big, tag):
                 if c.get('msg'): res.nontrivial.add(('rp', c['type'], c['res'], c['errtext']))
             elif fam == 'tg':
                 if c['step'] > 0 or c['prev'] != c.get('vfresh', {}).get('b'): res.nontrivial.add(('tg', c['kind'], c['prev'], c['payload']))
-            elif fam in ('unw', 'ru', 'nfm', 'u8', 'js', 'b64', 'jw', 'ctx', 'cc', 'ji'):
+            elif fam in ('unw', 'ru', 'nfm', 'u8', 'js', 'b64', 'jw', 'ctx', 'cc', 'ji', 'sm', 'pw'):
                 res.nontrivial.add((fam, json.dumps(c, sort_keys=True)))
     if not res.samples:
         res.sample(dict(family='eq', case=unhex_deep(data['eq'][0])))
